@@ -127,7 +127,7 @@ func diff64(a, b ntp.Time64) int64 {
 
 func (e *env) clientSock() *vnet.UDPConn {
 	var c *vnet.UDPConn
-	for _, s := range e.w.Net.Socks {
+	for _, s := range e.w.Net.Open() {
 		if s.Local().Addr() == netip.AddrFrom4([4]byte{10, 0, 0, 2}) && !s.Closed() {
 			c = s
 		}
